@@ -5,7 +5,7 @@
 //! set of nodes and the set of reference triples from the op text alone, computes the aggregation
 //! closure of the deleted node itself and scans the post-state of the implementation.
 use crate::common::*;
-use crate::props::c28::{nid, show_triples, tok};
+use crate::props::c28::{nid, parse_entries, parse_triples, show_triples, tok};
 use opcua::server::address_space::types::{AddressSpace, Object};
 use opcua::server::address_space::EventNotifier;
 use opcua::types::NodeId;
@@ -179,6 +179,80 @@ impl Prop for C29 {
                     add(out, a, *rng.pick(&types), b);
                 }
             }
+            // batches through AddressSpace::insert_references / insert(node, Some(refs)): existing
+            // entries first / in the middle / last, new entries after existing ones
+            if k >= 2 && rng.chance(1, 3) {
+                let m = rng.range(1, 4) as usize;
+                let pattern = rng.below(5);
+                let mut batch: Vec<Triple> = Vec::new();
+                for i in 0..m {
+                    let want_dup = match pattern {
+                        0 => rng.chance(1, 2),
+                        1 => i == 0,
+                        2 => i > 0 && i + 1 < m,
+                        3 => i + 1 == m,
+                        _ => false,
+                    };
+                    if want_dup && !edges.is_empty() {
+                        batch.push(*rng.pick(&edges));
+                    } else {
+                        let a = *rng.pick(&nodes);
+                        let bb = *rng.pick(&nodes);
+                        if a != bb {
+                            batch.push((a, *rng.pick(&types), bb));
+                        }
+                    }
+                }
+                let l: Vec<String> = batch.iter().map(|(a, t, bb)| format!("{}>{}>{}", a, t, bb)).collect();
+                out.push(format!("refs [{}]", l.join(",")));
+                edges.extend(batch.iter().cloned());
+            }
+            if rng.chance(1, 3) {
+                // a node that arrives with references (107 is otherwise hardly used), or a refused
+                // duplicate; some of the entries may exist already as references that mention the id
+                let x = if rng.chance(1, 5) { nodes[0] } else { 107 };
+                let mut pre: Vec<(u32, u32, bool)> = Vec::new();
+                if x == 107 && rng.chance(1, 2) {
+                    for _ in 0..rng.range(1, 2) {
+                        let y = *rng.pick(&nodes);
+                        let e = (y, *rng.pick(&types), rng.chance(1, 2));
+                        pre.push(e);
+                        let (a, bb) = if e.2 { (e.0, x) } else { (x, e.0) };
+                        edges.push((a, e.1, bb));
+                        out.push(format!("ref {} {} {}", a, bb, e.1));
+                    }
+                }
+                let m = rng.range(0, 3) as usize;
+                let pattern = rng.below(5);
+                let mut l: Vec<String> = Vec::new();
+                let mut firsts: Vec<(u32, u32, bool)> = Vec::new();
+                for i in 0..m {
+                    let want_existing = match pattern {
+                        0 => rng.chance(1, 2),
+                        1 => i == 0,
+                        2 => i + 1 == m,
+                        3 => true,
+                        _ => false,
+                    };
+                    let y = *rng.pick(&nodes);
+                    if y == x {
+                        continue;
+                    }
+                    let e = if want_existing && !pre.is_empty() {
+                        *rng.pick(&pre)
+                    } else if !firsts.is_empty() && rng.chance(1, 4) {
+                        *rng.pick(&firsts)
+                    } else {
+                        (y, *rng.pick(&types), rng.chance(1, 2))
+                    };
+                    firsts.push(e);
+                    l.push(format!("{}:{}:{}", e.0, e.1, b(e.2)));
+                    if x == 107 {
+                        edges.push(if e.2 { (e.0, e.1, x) } else { (x, e.1, e.0) });
+                    }
+                }
+                out.push(format!("nodewith {} [{}]", x, l.join(",")));
+            }
             if !edges.is_empty() && rng.chance(1, 4) {
                 let (a, t, b) = *rng.pick(&edges);
                 // sometimes a near miss (the opposite direction)
@@ -238,6 +312,24 @@ fn p(s: &str) -> Option<u32> {
 }
 
 impl R {
+    /// the nodes and references reported are exactly those added and not removed
+    fn check_views(&self, class: &str, on: &[u32], f: &[Triple], i: &[Triple]) -> Verdict {
+        let want_nodes: Vec<u32> = self.nodes.iter().cloned().filter(|x| OBS_NODES.contains(x)).collect();
+        if on != want_nodes.as_slice() {
+            return Verdict::fail("nodes", class, format!("nodes {:?} want {:?}", on, want_nodes));
+        }
+        let want: Vec<Triple> = self.triples.iter().cloned().collect();
+        if f != want.as_slice() {
+            return Verdict::fail("forward", class, format!("references {} want {}", show_triples(f), show_triples(&want)));
+        }
+        let mut by_target = want.clone();
+        by_target.sort_by_key(|(a, t, b)| (*b, *t, *a));
+        if i != by_target.as_slice() {
+            return Verdict::fail("inverse", class, format!("inverse references {} want {}", show_triples(i), show_triples(&by_target)));
+        }
+        Verdict::Ok
+    }
+
     /// post-state scan after `delete n dtr`: the property, on the implementation's answers alone
     fn check_delete(&self, n: u32, dtr: bool, gone: &BTreeSet<u32>, class: &str, on: &[u32], f: &[Triple], i: &[Triple]) -> Verdict {
         let exists: BTreeSet<u32> = on.iter().cloned().collect();
@@ -300,6 +392,47 @@ impl Runner for R {
                 self.space.insert_reference(&nid(a), &nid(bb), nid(t));
                 self.triples.insert((a, t, bb));
                 ("ok".to_string(), Verdict::Ok)
+            }
+            ["refs", l] => {
+                // AddressSpace::insert_references: a batch of (source, target, type)
+                let Some(l) = parse_triples(l) else { return ("bad-op".into(), Verdict::Ok) };
+                let ids: Vec<(NodeId, NodeId, NodeId)> = l.iter().map(|(a, t, bb)| (nid(*a), nid(*bb), nid(*t))).collect();
+                let refs: Vec<(&NodeId, &NodeId, &NodeId)> = ids.iter().map(|(a, bb, t)| (a, bb, t)).collect();
+                self.space.insert_references(&refs);
+                for t in l.iter() {
+                    self.triples.insert(*t);
+                }
+                let (o, on, f, i) = obs(&self.space);
+                let v = self.check_views("refs", &on, &f, &i);
+                (format!("ok {}", o), v)
+            }
+            ["nodewith", n, l] => {
+                // AddressSpace::insert(node, Some(references)): the node with its references in one call
+                let (Some(n), Some(l)) = (p(n), parse_entries(l)) else { return ("bad-op".into(), Verdict::Ok) };
+                let name = format!("n{}", n);
+                let o = Object::new(&nid(n), name.as_str(), name.as_str(), EventNotifier::empty());
+                let ids: Vec<(NodeId, NodeId, opcua::server::address_space::types::ReferenceDirection)> = l
+                    .iter()
+                    .map(|(x, t, inv)| {
+                        (nid(*x), nid(*t), if *inv { opcua::server::address_space::types::ReferenceDirection::Inverse } else { opcua::server::address_space::types::ReferenceDirection::Forward })
+                    })
+                    .collect();
+                let refs: Vec<(&NodeId, &NodeId, opcua::server::address_space::types::ReferenceDirection)> = ids.iter().map(|(x, t, d)| (x, t, *d)).collect();
+                let existed = self.nodes.contains(&n);
+                let ok = self.space.insert(o, Some(&refs[..]));
+                if !existed {
+                    self.nodes.insert(n);
+                    for (x, t, inv) in l.iter() {
+                        self.triples.insert(if *inv { (*x, *t, n) } else { (n, *t, *x) });
+                    }
+                }
+                let (ob, on, f, i) = obs(&self.space);
+                let v = if ok == existed {
+                    Verdict::fail("insert", "nodewith", "insert result")
+                } else {
+                    self.check_views("nodewith", &on, &f, &i)
+                };
+                (format!("ok {} {}", b(ok), ob), v)
             }
             ["unref", a, bb, t] => {
                 let (Some(a), Some(bb), Some(t)) = (p(a), p(bb), p(t)) else { return ("bad-op".into(), Verdict::Ok) };
